@@ -1033,6 +1033,7 @@ func emitSQLFacts(repo, out string) error {
 	fset := token.NewFileSet()
 	var pragmas, schema, migrateTx [][]string
 	var appendSQL, saveSQL []string
+	var readSQLs [][]string // every SELECT over the events table, wherever it is written
 	appendExecs, saveExecs := 0, 0
 	appendDBCalls, saveDBCalls := 0, 0
 	appendResultVar, appendOffsetFromResult := "", false
@@ -1074,6 +1075,9 @@ func emitSQLFacts(repo, out string) error {
 					}
 					v, _ := strconv.Unquote(x.Value)
 					up := strings.ToUpper(strings.TrimSpace(v))
+					if strings.HasPrefix(up, "SELECT") && strings.Contains(up, "FROM EVENTS") {
+						readSQLs = append(readSQLs, sqlTokens(v))
+					}
 					switch {
 					case fn == "applyPragmas" && strings.HasPrefix(up, "PRAGMA"):
 						pragmas = append(pragmas, sqlTokens(strings.ReplaceAll(v, "%d", "N")))
@@ -1151,6 +1155,7 @@ func emitSQLFacts(repo, out string) error {
 	list2("pragmas", pragmas)
 	list2("migrateOutsideTx", schema)
 	list2("migrateInTx", migrateTx)
+	list2("readSqls", readSQLs)
 	sb.WriteString("def appendSql : List String := " + leanStrList(appendSQL) + "\n\n")
 	sb.WriteString("def saveOffsetSql : List String := " + leanStrList(saveSQL) + "\n\n")
 	sb.WriteString(fmt.Sprintf("/-- number of statement executions in `Append` / `SaveOffset` (each must be exactly one prepared statement) -/\ndef appendExecs : Nat := %d\ndef saveOffsetExecs : Nat := %d\n", appendExecs, saveExecs))
